@@ -223,8 +223,43 @@ def run_ctor_alias(descr) -> Dict[str, Any]:
             "rec_p": rec(p), "rec_q": rec(q), "same_container": getattr(p, name) is getattr(q, name)}
 
 
+def run_container_eq(descr) -> Dict[str, Any]:
+    """K_container_eq: how two managed fields (and a managed field and a plain list) compare with == / !="""
+    famk, oc, name, ec = SCN[descr["scn"]]
+    fam = c15.families()[famk]
+    SymbolGraph().clear()
+    SymbolGraph()
+    elems = [fam.classes[ec](f"o{i}") for i in range(NELEM)]
+    C = fam.classes[oc]
+    p = C("p", **{name: [elems[i] for i in descr["p"]]})
+    q = C("q", **{name: [elems[i] for i in descr["q"]]})
+    fp, fq = getattr(p, name), getattr(q, name)
+    return {"obs": [int(fp == fq), int(fp != fq), int(fp == [elems[i] for i in descr["p"]]), int(fp == [elems[i] for i in descr["q"]])],
+            "python": [int(descr["p"] == descr["q"]), int(descr["p"] != descr["q"]), 1, int(descr["p"] == descr["q"])]}
+
+
+def run_setitem_grown(descr) -> Dict[str, Any]:
+    """K_setitem_grown: Node.anc is transitive; o1.anc = [o2]; owner.anc = init; owner.anc[i] = o1"""
+    fam = c15.families()["N"]
+    SymbolGraph().clear()
+    SymbolGraph()
+    elems = [c15.Node(f"o{i}") for i in range(NELEM)]
+    owner = c15.Node("o4")
+    elems[1].anc.append(elems[2])
+    owner.anc.extend(elems[i] for i in descr["init"])
+    exc = 0
+    try:
+        owner.anc[descr["i"]] = elems[descr["x"]]
+    except IndexError:
+        exc = 1
+    ident = {id(o): i for i, o in enumerate(elems + [owner])}
+    rec = sorted({ident[id(r.target.instance)] for r in SymbolGraph().relations()
+                  if r.source.instance is owner and r.wrapped_field.public_name == "anc"})
+    return {"field": [ident[id(x)] for x in owner.anc], "recorded": rec, "exc": exc}
+
+
 def snippet(descr) -> str:
-    fn = "run_ctor_alias" if descr.get("kind") == "ctor_alias" else "run_impl"
+    fn = {"ctor_alias": "run_ctor_alias", "container_eq": "run_container_eq", "setitem_grown": "run_setitem_grown"}.get(descr.get("kind"), "run_impl")
     return ("# PYTHONPATH=/repo/src:/repo:/verif PYTHONHASHSEED=0 /venv/bin/python\n"
             f"from harness import c16; print(c16.{fn}({descr!r}))")
 
@@ -296,13 +331,18 @@ def kterm(scn) -> str:
 
 
 def model_term(d) -> str:
+    if d.get("kind") == "container_eq":
+        return "SZ 0%Z"
+    if d.get("kind") == "setitem_grown":   # element 1 brings the inferred element 2 (o1.anc = [o2]) unless it is there already
+        inf = [2] if (d["x"] == 1 and 2 not in d["init"]) else []
+        return f"setitem_grown_out ({d['i']})%Z {d['x']} {nl(inf)} {nl(d['init'])}"
     if d.get("kind") == "ctor_alias":
         return f"ctor_copy_out {nl(d['init'])} {d['x']}"
     return f"model_out {kterm(d['scn'])} [{'; '.join(op_term(o) for o in d['ops'])}] {nl(d['init'])}"
 
 
 def spec_term(d) -> str:
-    if d.get("kind") == "ctor_alias":
+    if d.get("kind") in ("ctor_alias", "container_eq", "setitem_grown"):
         return "SZ 0%Z"
     ops = [["Assign", d["init"]]] + d["ops"]
     return f"cspec_out {kterm(d['scn'])} [{'; '.join(op_term(o) for o in ops)}] []"
@@ -375,7 +415,8 @@ def run(tier: str, seed: int, replay=None) -> int:
     rep.trusted.append("source pins pins/onto.json (pin set pins/sets/onto.json): the normalised source of the 57 methods the hand models Onto/Closure.v and Onto/Container.v mirror is compared on every run; an edit reopens the correspondence obligation")
     rep.assume = [
         "the field is written by its owner with fresh arguments (lists, sets, generators) or with itself for assignment / += / |=; "
-        "no fragment exclusions: a constructor handed another object's managed container copies it (C16-d, fixed) and is replayed from its witness",
+        "the written field is one whose inferences go to OTHER fields (inverse, super-property); K_setitem_grown (item assignment / insert with a negative index on a transitive or symmetric field, C16-i) is outside the fragment, with a _refuted theorem",
+        "reading a managed field with == is not modelled; K_container_eq (C16-h) is replayed from its witness",
         "elements of SET-valued fields are pairwise different under == (Python's own set semantics go by ==, the symbol graph by identity); twins are generated for list fields only",
         "item assignment with an integer index or a step-1 slice whose value is a list or a generator",
         "remove / pop / clear / del are not in the property's list of writes (the graph never retracts)",
@@ -405,7 +446,7 @@ def run(tier: str, seed: int, replay=None) -> int:
     impls = run_workers(descrs)
     try:
         specs = core.coq_values(PROP, HEADER_SPEC, [spec_term(d) for d in descrs], chunk=400, tag="spec")
-        plain = [i for i, d in enumerate(descrs) if d.get("kind") != "ctor_alias"]
+        plain = [i for i, d in enumerate(descrs) if d.get("kind") is None]
         closures = core.coq_values(PROP, c15.header(False), inference_terms([descrs[i] for i in plain], [impls[i] for i in plain]),
                                    chunk=400, tag="infer")
         closure_of = dict(zip(plain, closures))
@@ -433,7 +474,27 @@ def run(tier: str, seed: int, replay=None) -> int:
         kind = kind_of(scn)
         problems: List[str] = []
         model_agrees = None
-        if d.get("kind") == "ctor_alias":
+        if d.get("kind") == "container_eq":
+            rep.count(json.dumps(d), True)
+            if im["obs"] != im["python"]:
+                problems.append(f"[p.f == q.f, p.f != q.f, p.f == plain list of p's elements, p.f == plain list of q's elements] = {im['obs']}, "
+                                f"plain Python lists give {im['python']}")
+            # the dataclass-generated __eq__ of a field-less class: always True; != is list.__ne__
+            model_agrees = im["obs"] == [1] + im["python"][1:]      # only managed-vs-managed of one class goes through it
+        elif d.get("kind") == "setitem_grown":
+            rep.count(json.dumps(d), True)
+            want = list(d["init"])
+            k = d["i"] if d["i"] >= 0 else d["i"] + len(want)
+            if 0 <= k < len(want):
+                want[k] = d["x"]
+            inf = [2] if (d["x"] == 1 and 2 not in d["init"]) else []      # o1.anc = [o2]: storing o1 infers o2 into the same field
+            expected = want + [e for e in inf if e not in want]
+            if im["field"] != expected:
+                problems.append(f"owner.anc[{d['i']}] = o{d['x']} on {d['init']}: field {im['field']}; Python stores at that position and inference "
+                                f"adds the inferred elements: {expected}")
+            if model_ok:
+                model_agrees = (mo == im["field"])
+        elif d.get("kind") == "ctor_alias":
             rep.count(json.dumps(d), True)
             # q = C(f = p.f); q.f.append(x): every element of either field must be recorded for its owner, p keeps its contents,
             # q holds p's contents plus x
@@ -502,7 +563,8 @@ def run(tier: str, seed: int, replay=None) -> int:
 
 def _worker():
     cases = json.loads(sys.stdin.read())
-    out = [run_ctor_alias(c) if c.get("kind") == "ctor_alias" else run_impl(c) for c in cases]
+    runners = {"ctor_alias": run_ctor_alias, "container_eq": run_container_eq, "setitem_grown": run_setitem_grown}
+    out = [runners.get(c.get("kind"), run_impl)(c) for c in cases]
     sys.stdout.write(json.dumps(out))
 
 
